@@ -75,6 +75,21 @@ def correspond(ctx):
                     lines.append(f'c18.pad {pad} {wl} {wr} {qs(y)}')
                     exp.append(out)
                     metas.append(('pad', meta))
+                    # the same (integer-valued) numbers in another container / dtype are padded with the same values
+                    for dlabel, yv in (('int64', y.astype(np.int64)), ('int32', y.astype(np.int32)), ('list of int', [int(v) for v in y]),
+                                       ('float32', y.astype(np.float32))):
+                        try:
+                            outv = np.asarray(utils.pad_edges(yv, pad, 'extrapolate', extrapolate_window=[wl, wr]), dtype=float)
+                        except Exception as e:
+                            dis.append(Disagreement('c18.pad', 'pad:extrapolate:dtype:raises', f'pad_edges raised {type(e).__name__}: {e} for {dlabel} data '
+                                                    f'(float64 data are padded)', dict(meta, dtype=dlabel), True))
+                            continue
+                        ctx.count('dtype:' + dlabel)
+                        tolv = 1e-9 if dlabel != 'float32' else 1e-4
+                        if outv.shape != out.shape or not np.allclose(outv, out, rtol=tolv, atol=tolv * (1 + float(np.max(np.abs(out))))):
+                            dis.append(Disagreement('c18.pad', 'pad:extrapolate:dtype', f'pad_edges(N={n}, pad={pad}, extrapolate, window={wl, wr}): {dlabel} data are '
+                                                    f'padded differently from the same numbers as float64 (max diff '
+                                                    f'{float(np.max(np.abs(outv - out))) if outv.shape == out.shape else "shape"})', dict(meta, dtype=dlabel), True))
                     # exactly linear data is continued exactly
                     a, b = float(rng.integers(-5, 6)), float(rng.integers(-4, 5)) / 2
                     yl = a + b * np.arange(n)
